@@ -1342,7 +1342,9 @@ async fn exec_async(cfg: Cfg, hist: Vec<Ev>) -> Exec {
                 // variant 0: send_error on the connection as it is (possibly
                 // with a negotiated version); variants 1 and 2: send_error and
                 // apply(rejected update), each on a fresh connection
-                let last_query_version = conn.obs.lock().unwrap().c2s.iter().rev().find(|f| f.typ == 1 || f.typ == 2).map(|f| f.ver);
+                // (the negotiated version is the one of the answers the client accepted:
+                // with the answer-lower proxy it is below the version of the first query)
+                let negotiated_version = conn.obs.lock().unwrap().s2c.iter().rev().find(|f| f.typ == 7 && f.delivered).map(|f| f.ver);
                 for variant in 0..3 {
                     if variant > 0 {
                         let st = conn.client.state();
@@ -1379,10 +1381,10 @@ async fn exec_async(cfg: Cfg, hist: Vec<Ev>) -> Exec {
                         brief(&wire[1]), brief(&wire[2]))));
                 }
                 // on the used connection: the same PDU but for the version octet,
-                // which is the one the client's queries on that connection carried
+                // which is the one of the End of Data the client last accepted there
                 let same_but_version = match (&wire[0], &wire[1]) { (Some(a), Some(b)) => (a.typ, a.sess, &a.body) == (b.typ, b.sess, &b.body), _ => false };
-                if !same_but_version || last_query_version.is_some_and(|v| wire[0].as_ref().map(|f| f.ver) != Some(v)) {
-                    verdicts.push(("C06.api.send_error", format!("send_error({kind:?}) on a connection whose last query had version {last_query_version:?} put {:?} on the wire, on a fresh connection {:?}",
+                if !same_but_version || negotiated_version.is_some_and(|v| wire[0].as_ref().map(|f| f.ver) != Some(v)) {
+                    verdicts.push(("C06.api.send_error", format!("send_error({kind:?}) on a connection that negotiated version {negotiated_version:?} put {:?} on the wire, on a fresh connection {:?}",
                         brief(&wire[0]), brief(&wire[1]))));
                 }
                 if state_after != state_before || data_after != data_before {
